@@ -147,6 +147,8 @@ pub enum WOp
     SigPrepare(u8, Slot),
     SigClone(u8),
     SigDrop(u8),
+    /// Same, but the clone is dropped by an unwinding panic (caught right away): a destructor like any other.
+    SigDropUnwind(u8),
     /// Move one harness-held clone of signal `k` into a component on the slot's entity: it is dropped when that entity is
     /// despawned (by whatever cause, possibly by a garbage collection).
     SigMoveInto(u8, Slot),
@@ -156,6 +158,8 @@ pub enum WOp
     Syscall(SysKind, u8, u32),
     SpawnSys(u8, u8),
     KillSys(u8),
+    /// `world.entity_mut(spawned system k).clear()`: the entity stays, the system is gone (skipped for systems inserted on a slot entity)
+    ClearSys(u8),
     /// `IdMappedSystems::revoke_sysname` of the named system (name, function key)
     RevokeNamed(u8, u8),
     /// `spawn_rc_system` into spawned-system slot k (the signal is kept by the harness)
